@@ -10,8 +10,38 @@ import os, re, subprocess, shutil, time
 
 VERIF = os.path.dirname(os.path.dirname(os.path.abspath(__file__)))
 
+def _hdr(name):
+    return r"fn " + name + r"\s*(?:<[^>{}]*>)?\s*\([^{}]*?\)\s*(?:->\s*[^{}]+?)?\s*\{"
+
+
 # stub target -> (file, regex matching the function header up to and including '{', statement to insert)
-STUB_PATCHES = {}
+STUB_PATCHES = {
+    "toggle_piece": ("src/board/position_info.rs", _hdr("update_zobrist_hash_toggle_piece"), "return self.ghost_toggle_piece(square, piece, color);"),
+    "toggle_ep": ("src/board/position_info.rs", _hdr("update_zobrist_hash_toggle_en_passant_target"), "return self.ghost_toggle_ep(square);"),
+    "toggle_castle": ("src/board/position_info.rs", _hdr("update_zobrist_hash_toggle_castling_rights"), "return self.ghost_toggle_castle(castling_rights);"),
+    "attack_targets": ("src/move_generator/targets.rs", _hdr("generate_attack_targets"), "return self.stub_attack(board, color);"),
+    "knight": ("src/move_generator/mod.rs", _hdr("generate_knight_moves"), "return kani_verif::wire::knight(moves, board, color, targets);"),
+    "sliding": ("src/move_generator/mod.rs", _hdr("generate_sliding_moves"), "return kani_verif::wire::sliding(moves, board, color, targets);"),
+    "king": ("src/move_generator/mod.rs", _hdr("generate_king_moves"), "return kani_verif::wire::king(moves, board, color, targets);"),
+    "pawn": ("src/move_generator/mod.rs", _hdr("generate_pawn_moves"), "return kani_verif::wire::pawn(moves, board, color);"),
+    "castle": ("src/move_generator/mod.rs", _hdr("generate_castle_moves"), "return kani_verif::wire::castle(moves, board, color, targets);"),
+    "filter": ("src/move_generator/mod.rs", _hdr("remove_invalid_moves"), "return kani_verif::wire::filter(candidates, board, color, targets);"),
+    "pawn_move_targets": ("src/move_generator/targets.rs", _hdr("generate_pawn_move_targets"), "return super::kani_verif::pwire::move_targets(board, color);"),
+    "pawn_attack_targets": ("src/move_generator/targets.rs", _hdr("generate_pawn_attack_targets"), "return super::kani_verif::pwire::attack_targets(piece_targets, board, color);"),
+    "expand": ("src/move_generator/mod.rs", _hdr("expand_piece_targets"), "return kani_verif::pwire::expand(moves, board, color, piece_targets);"),
+    "en_passant": ("src/move_generator/mod.rs", _hdr("generate_en_passant_moves"), "return kani_verif::pwire::en_passant(moves, board, color);"),
+    "generate_moves": ("src/move_generator/mod.rs", r"pub " + _hdr("generate_moves"), "return self.stub_generate_moves(board, player);"),
+    "get_attack_targets": ("src/move_generator/mod.rs", _hdr("get_attack_targets"), "return self.stub_get_attack_targets(board, player);"),
+    "vstub_checkmate": ("src/evaluate/mod.rs", _hdr("player_is_in_checkmate"), "return crate::move_generator::verif_vstub_checkmate(board, move_generator, player);"),
+    "vstub_check": ("src/evaluate/mod.rs", r"pub " + _hdr("player_is_in_check"), "return crate::move_generator::verif_vstub_check(board, move_generator, player);"),
+    "generate_moves_ewire": ("src/move_generator/mod.rs", r"pub " + _hdr("generate_moves"), "return self.ewire_generate(board, player);"),
+    "effect_ewire": ("src/move_generator/mod.rs", _hdr("lazily_calculate_chess_move_effect"), "return self.ewire_effect(chess_move, board, player);"),
+    "game_ending": ("src/evaluate/mod.rs", _hdr("game_ending"), "return kani_verif::estub::game_ending(board, move_generator, current_turn);"),
+    "to_algebraic": ("common/src/bitboard/square.rs", _hdr("to_algebraic"), "if true { return tables::ALGEBRAIC[(square.0.trailing_zeros() & 63) as usize]; }"),
+    "square_string_to_bitboard": ("common/src/bitboard/square.rs", _hdr("square_string_to_bitboard"),
+                                  "if true { let b = coordinate.as_bytes(); return Bitboard(1u64 << (((b[1] - b'1') * 8 + (b[0] - b'a')) & 63)); }"),
+    "magic_new": ("src/move_generator/magic_table.rs", r"pub " + _hdr("new"), "if true { return Self::verif_empty(); }"),
+}
 
 
 def _run(cmd, cwd, env, timeout, logfile):
@@ -89,7 +119,7 @@ def replay(prop, h, fcs, src, target, logs, env):
         results[profile] = dict(tests_run=int(ran.group(1)) if ran else 0, test_failed=failed, matched_checks=hit,
                                 panic=(re.findall(r"panicked at [^\n]*\n[^\n]*", t) or [""])[0][:400])
     reproduced = results["dev"]["test_failed"] or results["release"]["test_failed"]
-    d = os.path.join(VERIF, "replays", prop)
+    d = os.path.join(os.environ.get("VERIF_REPLAY_DIR") or os.path.join(VERIF, "replays"), prop)
     os.makedirs(d, exist_ok=True)
     path = os.path.join(d, h["name"] + ".rs")
     with open(path, "w") as f:
